@@ -21,7 +21,7 @@ INJECT = os.path.join(HARNESS, "inject")
 
 # file -> number of sync.RWMutex fields that MUST be found there
 EXPECT = {
-    "vfs/memfs/memfs_types.go": 2,      # MemFile.mu, baseNode.mu
+    "vfs/memfs/memfs_types.go": (2, 3),  # MemFile.mu, baseNode.mu [, volumes.mu: with "fix: MemFS guards its volumes with a mutex"]
     "vfs/orefafs/orefafs_types.go": 3,  # OrefaFS.mu, OrefaFile.mu, node.mu
     "idm/memidm/memidm_types.go": 2,    # grpMu, usrMu
 }
@@ -42,8 +42,9 @@ def _strip_comments_strings(src):
 
 def rewrite_types(rel, src):
     n = len(re.findall(r'\bsync\.RWMutex\b', _strip_comments_strings(src)))
-    if n != EXPECT[rel]:
-        raise OverlayError("%s: expected %d sync.RWMutex fields, found %d" % (rel, EXPECT[rel], n))
+    want = EXPECT[rel] if isinstance(EXPECT[rel], tuple) else (EXPECT[rel],)
+    if n not in want:
+        raise OverlayError("%s: expected %s sync.RWMutex fields, found %d" % (rel, " or ".join(map(str, want)), n))
     if not re.search(r'^\s*"sync"\s*$', src, flags=re.M):
         raise OverlayError("%s: import of \"sync\" not found" % rel)
     out = re.sub(r'^(\s*)"sync"\s*$', lambda m: m.group(1) + VSYNC_IMPORT, src, count=1, flags=re.M)
